@@ -24,3 +24,86 @@ PROPS["C08"] = {
                     "ASan + UBSan white-list catch out-of-range accesses; attach windows are disjoint between live buffers"],
     "parts": [opf("buffer", ["harness/c08_buffer.cpp"], {"cases": 400000, "maxsize": 40}, {"cases": 1500000, "maxsize": 120, "workers": 16})],
 }
+
+
+def tree_parts(q, t):
+    return [
+        opf("map", ["harness/cont_tree.cpp"], q, t, bin="cont_map", cflags=["-DMULTI=0"]),
+        opf("multimap", ["harness/cont_tree.cpp"], q, t, bin="cont_multimap", cflags=["-DMULTI=1"]),
+    ]
+
+PROPS["C01"] = {
+    "level": "exploration",
+    "level_text": "random operation histories (plain/hinted inserts, removals by key/iterator/front/back, clear, copy, assignment, bulk insert; random, ascending, descending, zig-zag and fill-then-drain key orders) against a sorted reference (multi)map with a full comparison after every operation, including find/contains/count for every key of the universe and a key-comparison counter for the depth bound",
+    "level_note": "trusted: the reference model in harness/cont_tree.cpp, the comparison counter in harness/elem.hpp (counts operator<,>,== of the key type), ASan",
+    "technique": "stateful property-based testing against a reference sorted multimap, comparison-counting keys, ddmin shrinking",
+    "rule": "opfuzz: histories of 2..2*size ops over two Map (resp. MultiMap) objects with keys from a small universe; after every op size/isEmpty/forward+backward iteration/front/back/find/contains/count for all keys, returned iterators, addresses and the comparison bound are checked. "
+            "Non-trivial = (removal of an inner entry at n>=7, i.e. a node with two children is possible, AND a hinted insert that took the hint branch) OR a count() on a key with >=3 entries; distinct by case text hash.",
+    "assumptions": ["MultiMap::remove(key) may remove any one entry of that key (the model learns which)", "a hinted MultiMap insert may land anywhere inside its equal-key run"],
+    "parts": tree_parts({"cases": 60000, "maxsize": 30}, {"cases": 600000, "maxsize": 150, "workers": 16}),
+}
+
+
+def hash_parts(q, t):
+    return [
+        opf("hashmap", ["harness/cont_hash.cpp"], q, t, bin="cont_hashmap", cflags=["-DKIND=0"]),
+        opf("hashset", ["harness/cont_hash.cpp"], q, t, bin="cont_hashset", cflags=["-DKIND=1"]),
+        opf("poolmap", ["harness/cont_hash.cpp"], q, t, bin="cont_poolmap", cflags=["-DKIND=2"]),
+    ]
+
+PROPS["C02"] = {
+    "level": "exploration",
+    "level_text": "random operation histories over three tables of different (generated) capacities with a controllable hash (all keys colliding, 2, 3, 7 buckets, identity) against an insertion-ordered reference map, full comparison after every operation",
+    "level_note": "trusted: the reference model in harness/cont_hash.cpp, ASan; the hash of the key type is harness-defined (found by ADL) so collisions are controlled; the library's own hash() overloads are exercised by the separate 'hashkeys' part",
+    "technique": "stateful property-based testing against a reference insertion-ordered map with generated table capacities and a controllable hash",
+    "rule": "opfuzz: histories of 2..2*size ops over three HashMap / HashSet / PoolMap objects with capacities drawn from {0,1,2,3,4,7,16,500,default} and hash modulus from {1,2,3,7,identity}; after every op size/isEmpty/iteration both ways/front/back/find+contains for the whole key universe/returned iterators/element addresses/held iterators are compared with the model. "
+            "Non-trivial = (a bucket chain reached length >=3 AND an element was removed from the middle of such a chain) OR a swap/assignment between two non-empty tables of different capacity; distinct by case text hash.",
+    "assumptions": ["a payload field that is not part of key equality shows whether an existing entry was touched"],
+    "parts": hash_parts({"cases": 50000, "maxsize": 30}, {"cases": 500000, "maxsize": 120, "workers": 16}),
+}
+
+
+def seq_parts(q, t):
+    return [
+        opf("list", ["harness/cont_seq.cpp"], q, t, bin="cont_list", cflags=["-DKIND=0"]),
+        opf("array", ["harness/cont_seq.cpp"], q, t, bin="cont_array", cflags=["-DKIND=1"]),
+        opf("poollist", ["harness/cont_seq.cpp"], q, t, bin="cont_poollist", cflags=["-DKIND=2"]),
+    ]
+
+PROPS["C03"] = {
+    "level": "exploration",
+    "level_text": "random operation histories over three List / Array / PoolList objects against a reference sequence with a full comparison after every operation; List::sort is checked in both directions (ascending and equal to the sorted multiset of the previous contents) on random, sorted, reverse, constant, two-valued and organ-pipe inputs",
+    "level_note": "trusted: the reference model in harness/cont_seq.cpp, ASan",
+    "technique": "stateful property-based testing against a reference sequence; sort checked as sorted permutation",
+    "rule": "opfuzz: histories of 2..2*size ops (append/prepend/insert at position or held iterator/remove by iterator, index, value/resize/reserve/clear/swap/copy/assign/bulk append+insert/sort/find) over three containers; after every op size, isEmpty, contents both ways, front/back, pointer view and capacity (Array), returned iterators/references, element addresses (List, PoolList) are compared with the model. "
+            "Non-trivial: List = a sort of >=8 elements with duplicates, or an insert at a held iterator after removals; Array = crossed >=2 capacity changes and removed from the middle; PoolList = an append after a removal (slot reuse); distinct by case text hash.",
+    "assumptions": ["PoolList::front/back cannot be instantiated on the pinned tree (they reference a non-existing member) and are not used"],
+    "parts": seq_parts({"cases": 50000, "maxsize": 30}, {"cases": 500000, "maxsize": 120, "workers": 16}),
+}
+
+
+PROPS["C04"] = {
+    "level": "exploration",
+    "level_text": "random operation histories over all eight container templates with tracked elements (registry of live instances, owned heap block per element), including copy construction, assignment, self-assignment, mid-case destruction and operations whose argument is the container itself or a reference to one of its own elements; lifetimes, leaks and model equality are checked after every operation",
+    "level_note": "trusted: the element registry and allocation ledger in harness/elem.hpp and engine/pbt.hpp, the reference models of the container harnesses, ASan",
+    "technique": "stateful property-based testing with lifetime-tracking element types, allocation ledger and self-referential arguments",
+    "rule": "opfuzz: the C01-C03 interpreters run with the C04 profile (more copies, assignments, self-assignments, re-creations, self-referential arguments; Array is steered to size==capacity before a self-element append/resize). Oracle: every element instance is constructed and destroyed exactly once and never used when dead (registry + magic), constructions == destructions and no ledger block alive after the containers are destroyed, copies share no element storage with their source, results equal the model obtained by copying the argument first. "
+            "Non-trivial = a self-assignment or self-referential argument on a container of size >=2 AND a destruction (re-creation, overwrite by copy, end of case) of a container with live elements; distinct by case text hash.",
+    "assumptions": ["PoolList and PoolMap are not copyable by design; their self-referential arguments are key references and remove(value&)"],
+    "parts": tree_parts({"cases": 40000, "maxsize": 24}, {"cases": 300000, "maxsize": 100, "workers": 16})
+             + hash_parts({"cases": 40000, "maxsize": 24}, {"cases": 300000, "maxsize": 100, "workers": 16})
+             + seq_parts({"cases": 40000, "maxsize": 24}, {"cases": 300000, "maxsize": 100, "workers": 16}),
+}
+
+PROPS["C05"] = {
+    "level": "exploration",
+    "level_text": "random insert/remove/clear/swap histories over the seven node and pool containers; the address and a held iterator of every live element are re-checked after every operation; pool elements are a non-copyable type whose construction count is compared with the number of appends",
+    "level_note": "trusted: address bookkeeping in the container harnesses, the deleted copy operations of the Pinned element type (any internal copy would not compile), ASan",
+    "technique": "stateful property-based testing with recorded element addresses and held iterators re-validated after every operation",
+    "rule": "opfuzz: the container interpreters run with the C05 profile (long-living elements, swaps, few clears). After every op every live element is found at the address recorded at insertion and every held iterator still designates its element; after swap the elements are found in the other container at the same addresses. "
+            "Non-trivial = some element survived >=10 later insertions and >=5 removals (tree containers: that includes rebalancing above it) and, where swap exists, a swap of two non-empty containers; distinct by case text hash.",
+    "assumptions": ["List::sort permutes values between nodes by design and is excluded", "Map and MultiMap have no swap"],
+    "parts": tree_parts({"cases": 30000, "maxsize": 40}, {"cases": 300000, "maxsize": 150, "workers": 16})
+             + hash_parts({"cases": 30000, "maxsize": 40}, {"cases": 300000, "maxsize": 150, "workers": 16})
+             + [p for p in seq_parts({"cases": 30000, "maxsize": 40}, {"cases": 300000, "maxsize": 150, "workers": 16}) if p["name"] != "array"],
+}
